@@ -238,7 +238,7 @@ theorem rootStep_none_iff (mgr : Manager) (den : Nat) (s : RootSt) :
   · simp [h]
 
 /-- Invariant of the closure state after `j` calls: `P` is the root prefix, `G` the radicand prefix. -/
-structure Inv (n : Nat) (aux : Int → Int) (den X j P G : Nat) (s : RootSt) : Prop where
+structure RootInv (n : Nat) (aux : Int → Int) (den X j P G : Nat) (s : RootSt) : Prop where
   grp : X * (10 ^ n) ^ j = G * den + s.num
   lt : s.num < den
   rem : s.rem = (G : Int) - (P : Int) ^ n
@@ -252,8 +252,8 @@ theorem rootStep_inv {n : Nat} {mgr : Manager} (hn : 0 < n) (hB : mgr.base = 10 
     (hnext : ∀ Q : Int, 0 ≤ Q → mgr.next (pw n Q) (aux Q) = (pw n (Q + 1), aux (Q + 1)))
     (hnd : ∀ Q : Int, 0 ≤ Q → mgr.nextDigit (pw n Q) (aux Q) = (pw n (10 * Q), aux (10 * Q)))
     {den X j P G : Nat} {s s' : RootSt} {d : Nat}
-    (hI : Inv n aux den X j P G s) (h : rootStep mgr den s = some (d, s')) :
-    d ≤ 9 ∧ Inv n aux den X (j + 1) (10 * P + d) (G * 10 ^ n + s.num * 10 ^ n / den) s' ∧
+    (hI : RootInv n aux den X j P G s) (h : rootStep mgr den s = some (d, s')) :
+    d ≤ 9 ∧ RootInv n aux den X (j + 1) (10 * P + d) (G * 10 ^ n + s.num * 10 ^ n / den) s' ∧
       s'.num = s.num * 10 ^ n % den := by
   rw [rootStep_eq, hB] at h
   split at h
